@@ -365,6 +365,9 @@ func streamSuite(r *Run, prop string) {
 	if prop == "C01" || prop == "C02" || prop == "C03" || prop == "C08" {
 		hsSuite(r, prop)
 	}
+	if prop == "C02" || prop == "C03" {
+		huSuite(r, prop)
+	}
 	extraChecks(r, prop)
 }
 
